@@ -10,7 +10,7 @@ RULE = ('receive buffer is malloc(MTU) exactly, frames of length 0..MTU copied t
         'ToS in {0,1,2,random}; wire counters (Emit numDescs, Discover stationNumber, QueryLargeTlv offset) at 0, 1, the largest that fits, one '
         'more, 0x7FFF, 0x8000, 0xFFFF; MTU in {576,577,1500,9216,random}; wired / Wi-Fi attribute sets with names of length 0..40; the same '
         'frames through derive_session_event (avail = MTU), the Linux daemons\' loop body and lltd_esp32_handle_frame (exact-size heap copy), '
-        'interleaved with clock advances and ticks; built with -fsanitize=address,undefined -fno-sanitize-recover=all; non-trivial = the '
+        'interleaved with clock advances and ticks; plus the real Linux daemons as a whole (interface discovery, threads, recvfrom into malloc(MTU), Linux port) on datagrams of every length incl. longer than the MTU; built with -fsanitize=address,undefined -fno-sanitize-recover=all; non-trivial = the '
         'case made the core transmit or change automaton state; distinct = distinct projected transcript')
 ASSUMPTIONS = ['576 <= MTU <= 9216 and the receive buffer is exactly MTU bytes (port contract)', 'lifetime errors and UB at expressions the model does not contain are observed by ASan/UBSan only']
 
@@ -90,6 +90,62 @@ def cases(rng, tier, X):
             ops.append('rx 0 %s' % (full[:2 * L] or '-'))
             ops.append('esp %s' % (full[:2 * L] or '-'))
         out.append(('len_op%d' % op, ops))
+    return out
+
+
+def extra_run(tier, seed, tag):
+    """daemon level: the real linux-embedded-main.c (anchor of C01: receive buffer of MTU bytes, recvfrom(…, MTU)) and linux-main.c
+    with the real Linux port under ASan+UBSan on adversarial datagrams of every length, including longer than the MTU; the
+    transmitted frames are compared with the model (stale buffer tails included: ASan fills fresh memory with 0xBE, the model's buf0)"""
+    import os
+    import random
+    import vlib
+    import daemonlib as D
+    out = {'violations': [], 'notes': [], 'coverage': {}}
+    rng = random.Random(seed * 17 + 3)
+    work = os.path.join(vlib.BUILD, tag, 'daemon', 'run')
+    cov = {}
+    for which in ('embedded', 'nm'):
+        b, err = D.build(tag, which, 'asan')
+        if not b:
+            out['notes'].append('daemon harness (%s, asan) does not build against the working tree: %s' % (which, err[-300:]))
+            cov[which] = 'build failed'
+            continue
+        n = 6 if tier == 'quick' else 300
+        ran = diffs = reports = 0
+        for k in range(n):
+            nif = rng.choice([1, 2, 2, 3])
+            ifaces = [('vif%d' % i, '02aabbccdd%02x' % (i + 1), rng.choice([576, 577, 1500, 4000, rng.randint(576, 4000)]), 'c0a801%02x' % (5 + i)) for i in range(nif)]
+            frames = []
+            for i, (_, mac, mtu, _) in enumerate(ifaces):
+                for _ in range(rng.randint(5, 60)):
+                    f = adversarial(rng, mac, mtu)
+                    if f == '-':
+                        f = ''
+                    if rng.random() < 0.08:
+                        f = f + 'ee' * (mtu - len(f) // 2 + rng.choice([1, 2, 14, 100]))     # a datagram longer than the buffer: the kernel truncates
+                    frames.append((i, f))
+            label = 'c01_%s_%d' % (which, k)
+            impl, san, rc, sp = D.run(b, D.script(ifaces, frames), work, label)
+            ran += 1
+            replay = ['%% daemon-level run: harness/build_daemon.sh <dir> %s asan ; <dir>/daemon_%s_asan <this file>' % (which, which)] + ['%d ' + l for l in D.script(ifaces, frames)]
+            if impl is None:
+                out['violations'].append(('daemon_' + label, replay, (0, 'C01 daemon level (%s): the daemon did not finish serving the scripted datagrams (%s)' % (which, san))))
+                continue
+            summ = D.sanitizer_summary(san)
+            if summ or rc != 0:
+                reports += 1
+                out['violations'].append(('daemon_' + label, replay, (0, 'C01 daemon level (%s, receive path of the real daemon + Linux port): %s' % (which, summ or ('abnormal end, exit %s: %s' % (rc, san[-200:]))))))
+                continue
+            ops = D.model_ops(ifaces, frames, 0xbe)
+            model, bad = D.model_run(ops, work, label)
+            d = D.compare(ifaces, impl, model)
+            if d:
+                diffs += 1
+                out['violations'].append(('daemon_' + label, replay + ['% model ops:'] + ['% ' + o for o in ops],
+                                          (0, 'C01 daemon level (%s): what the daemon sent on interface %d differs from the model at line %d: %r vs %r' % ((which,) + d))))
+        cov[which] = '%d runs, %d trace differences, %d sanitizer reports / abnormal ends' % (ran, diffs, reports)
+    out['coverage'] = {'daemon_level': cov}
     return out
 
 
